@@ -468,6 +468,25 @@ def _sigma(p):
     return res.rawmul(El.a(CTX.bykey[k])).norm()
 
 
+def substitute(e, mapping):
+    """replace base atoms (by id) with elements"""
+    if not mapping or not (e.atoms() & set(mapping)):
+        return e
+    out = ZERO
+    for m, c in e.t.items():
+        term = El.c(c)
+        for v, k in m:
+            if v in mapping:
+                if k < 0:
+                    term = term * inv(mapping[v] ** (-k))
+                else:
+                    term = term * (mapping[v] ** k)
+            else:
+                term = term * El({((v, k),): Fr(1)})
+        out = out + term
+    return out
+
+
 def fn(name, *args):
     """application of an uninterpreted function symbol, keyed by the canonical form of its arguments"""
     args = tuple((a.norm() if a.has_defined() else a) for a in map(_el, args))
